@@ -56,10 +56,22 @@ def run(ctx):
     evaluations += nprim
     ctx.oblige("K-proxy/prim: undquote, strip_brackets, slicing and strip of the model agree with the real functions / CPython", prim_ok)
 
+    # ---- K-lower: case mapping / strip set / quoted-string reading on all 256 latin-1 code points
+    n_tab, tab_bad = P.latin1_prim_tables(runner, fs_runner)
+    evaluations += n_tab
+    for who, q, e, g in tab_bad[:5]:
+        ctx.report("latin1:" + q[:40], "%s primitive disagrees with CPython / waitress.utilities on latin-1 text: %s expected %s, got %s" % (who, q, e, g),
+                   {"kind": "prim", "query": q, "expected": e, "observed": g, "failing_input_found": True})
+    ctx.oblige("K-lower: lower_latin1 = str.lower, strip = str.strip and the quoted-string reading = undquote on every one of the 256 latin-1 code points (alone, embedded, doubled, quoted, escaped), for the model and for the specification", not tab_bad,
+               "%d table entries" % n_tab)
+
     # ---- K-proxy
     cases = P.exhaustive_small(ctx.tier) + P.hop_law_cases(ctx.tier)
     n_struct = len(cases)
     ext = P.ext_cases(rng, ctx.tier)
+    lat = P.latin1_cases(ctx.tier)
+    n_lat = len(lat)
+    ext += lat
     n_ext = len(ext)
     cases += ext
     cases += [P.gen_case(rng, "trusted") for _ in range(14000 if quick else 250000)]
@@ -291,11 +303,14 @@ def run(ctx):
     ctx.coverage.update({
         "evaluations": evaluations,
         "distinct_nontrivial": len(nontrivial),
-        "rule": "generated (environ, configuration) pairs: every degenerate element alone / after / before a valid one, all (n,k) in a box for the hop law, presence masks of Forwarded parameters per element, grammar-driven values (escapes, bracketed IPv6 with ports, empty members, OWS, lists up to 257 / 3000 elements, counts 1..5), values drawn from Spec.wf_headers, plus random header grammars; non-trivial = distinct cases of a trusted peer with count >= 1, an allowed set of trusted kinds and at least one trusted header present",
+        "rule": "generated (environ, configuration) pairs: every degenerate element alone / after / before a valid one, all (n,k) in a box for the hop law, presence masks of Forwarded parameters per element, grammar-driven values (escapes, bracketed IPv6 with ports, empty members, OWS, lists up to 257 / 3000 elements, counts 1..5), values drawn from Spec.wf_headers, every special latin-1 code point (b5 df ff aa ba 85 a0 1c-1f b2 b3 b9 ...) in every field quoted/unquoted at start/middle/end and every code point 1..255 in a for= identifier / host, plus random header grammars (12% of all values get special code points sprinkled in); non-trivial = distinct cases of a trusted peer with count >= 1, an allowed set of trusted kinds and at least one trusted header present",
         "samples": samples,
         "model_vs_real_cases": len(cases),
         "structured_cases": n_struct,
         "extension_cases": n_ext,
+        "latin1_systematic_cases": n_lat,
+        "latin1_table_entries": n_tab,
+        "special_code_points": [hex(ord(c)) for c in P.SPECIAL_BYTES],
         "fspec_cases": len(fs_cases),
         "fspec_outcome_distribution": dict(fs_dist),
         "wellformed_cases": n_wf,
